@@ -188,6 +188,10 @@ Definition orm_update_params (cols : list col) (old attrs : pset) : pset :=
                                       then [] else [(ckey c, v)]
                           | None => []
                           end) cols.
+(* _collect_update_commands(bulk=True) - session.execute(update(Entity), [mappings]) / bulk_update_mappings:
+   every key of the mapping is a parameter, None included (no comparison with a loaded value) *)
+Definition orm_bulk_update_params (cols : list col) (m : pset) : pset :=
+  flat_map (fun c => match get (ckey c) m with Some v => [(ckey c, v)] | None => [] end) cols.
 (* an object none of whose column attributes changed emits no UPDATE at all *)
 Definition has_change (params : pset) : bool := existsb (fun kv => negb (Nat.eqb (fst kv) O)) params.
 (* records are executed in consecutive groups of equal key sets (itertools.groupby) *)
